@@ -1028,6 +1028,8 @@ def initial_states(spec, leafname):
                 inits.append({key: tree_for(inner[0][0], valid[-1])})
                 if invalid and _jsonlike(invalid[0]):
                     inits.append({key: tree_for(inner[0][0], invalid[0])})
+    # a keyword the schema does not declare: a new dynamic value on a dynamic schema, an error everywhere else
+    inits.append({"undeclared_kw": 5})
     return inits
 
 
